@@ -1,12 +1,15 @@
 package p10
 
 import (
+	"bytes"
+	"encoding/hex"
 	"fmt"
 	"hash/fnv"
 	"sort"
 	"strconv"
 	"strings"
 	"sync"
+	"time"
 
 	"github.com/btcsuite/btcd/blockchain"
 	"github.com/btcsuite/btcd/btcjson"
@@ -375,6 +378,8 @@ type runner struct {
 	last                snapshot
 	record, steerFailed bool
 	snaps               int
+	forceRedeemers      bool
+	prints              map[int]string
 	held                []func() bool // results handed out earlier; each must still read the same at the end of the run
 }
 
@@ -684,6 +689,7 @@ type event struct {
 func (r *runner) run() string {
 	r.steerFailed = false
 	r.held = nil
+	r.recordInputs()
 	var err error
 	r.e, err = newEnv(r.pol, r.maturity)
 	if err != nil {
@@ -836,6 +842,68 @@ func (r *runner) run() string {
 			}
 			r.pol = pol
 			r.e.note.announced = nil
+		case f[0] == "S" && len(f) == 1:
+			// pinned schedule: the next op (a submission) is run; at the moment it looks up the chain — the pool's
+			// write lock is held — the op after it is started from another goroutine.  It must not complete
+			// before the submission has returned; the pair must end like the two ops run one after the other.
+			if i+2 >= len(r.ops) {
+				return "bad-op"
+			}
+			f1 := strings.Split(r.ops[i+1], ":")
+			d1, ok := r.tx(f1[1])
+			if !ok || (f1[0] != "P" && f1[0] != "A") {
+				return "bad-op"
+			}
+			second := r.ops[i+2]
+			done := make(chan struct{})
+			early := false
+			hooked := false
+			r.e.fetchHook = func() {
+				hooked = true
+				go func() {
+					r.issue(second)
+					close(done)
+				}()
+				select {
+				case <-done:
+					early = true // the competing call got through although the submission holds the lock
+				case <-time.After(3 * time.Millisecond):
+				}
+			}
+			if f1[0] == "P" && len(f1) == 7 {
+				tag, _ := strconv.Atoi(f1[4])
+				acc, err := mp.ProcessTransaction(d1.tx, b(f1[2]), b(f1[3]), mempool.Tag(tag))
+				switch {
+				case err != nil:
+					res = errClass(err)
+				case acc == nil:
+					res = "orph"
+				default:
+					res = "a:" + r.descIDs(acc)
+				}
+			} else if f1[0] == "A" && len(f1) == 4 {
+				missing, desc, err := mp.MaybeAcceptTransaction(d1.tx, b(f1[2]), b(f1[3]))
+				switch {
+				case err != nil:
+					res = errClass(err)
+				case len(missing) > 0:
+					res = "m:" + r.missingIDs(missing)
+				default:
+					res = "a:" + r.descIDs([]*mempool.TxDesc{desc})
+				}
+			} else {
+				return "bad-op"
+			}
+			r.e.fetchHook = nil
+			if hooked {
+				<-done
+			} else {
+				r.issue(second) // the submission was rejected before any chain lookup
+			}
+			if early {
+				res = "lock-violation"
+			}
+			i += 2
 		case f[0] == "T":
 			res = r.template()
 		case f[0] == "C":
@@ -987,7 +1055,35 @@ func (r *runner) run() string {
 			break
 		}
 	}
+	// inputs are values too: the transactions handed to the pool (each one object, reused by every call that
+	// names it) must read exactly as they were built
+	if !r.inputsIntact() {
+		outs = append(outs, "input-mutated")
+	}
 	return strings.Join(outs, "|")
+}
+
+// fingerprint of a transaction object: serialization and cached hash.
+func txFingerprint(t *btcutil.Tx) string {
+	var buf bytes.Buffer
+	t.MsgTx().Serialize(&buf)
+	return t.Hash().String() + ":" + t.MsgTx().TxHash().String() + ":" + hex.EncodeToString(buf.Bytes())
+}
+
+func (r *runner) recordInputs() {
+	r.prints = map[int]string{}
+	for _, d := range r.order {
+		r.prints[d.id] = txFingerprint(d.tx)
+	}
+}
+
+func (r *runner) inputsIntact() bool {
+	for _, d := range r.order {
+		if r.prints[d.id] != txFingerprint(d.tx) {
+			return false
+		}
+	}
+	return true
 }
 
 // steerEviction: after ProcessTransaction stored `added` as an orphan, make the
